@@ -14,10 +14,13 @@ def arg (cls method callee param : String) (idx : Nat := 0) : Option String :=
 def args (cls method callee : String) (want : List (String × String)) (idx : Nat := 0) : Bool :=
   want.all (fun pv => arg cls method callee pv.1 idx == some pv.2)
 
-/-- exactly the listed parameters are passed (nothing else, e.g. no stray positional argument) -/
+/-- exactly the listed parameters are passed (nothing else, e.g. no stray positional argument); the order in
+    which the call spells them is immaterial (a positional argument rewritten as a keyword is the same call) -/
 def onlyParams (cls method callee : String) (ps : List String) (idx : Nat := 0) : Bool :=
   match site cls method callee idx with
-  | some s => s.bind.map (·.1) == ps
+  | some s =>
+    let names := s.bind.map (·.1)
+    names.length == ps.length && names.all (ps.contains ·) && ps.all (names.contains ·)
   | none => false
 
 def store (cls method target : String) : Option Store :=
@@ -25,6 +28,35 @@ def store (cls method target : String) : Option Store :=
 
 def stored (cls method : String) (want : List (String × String)) : Bool :=
   want.all (fun tv => (store cls method tv.1).map (·.value) == some tv.2)
+
+/-- all `self.result.* / self.run_params.*` stores of the method, in source order -/
+def storesOf (cls method : String) : List (String × String) :=
+  (stores.filter (fun s => s.cls == cls && s.method == method)).map (fun s => (s.target, s.value))
+
+/-- the method stores exactly the listed (target, value) pairs — each once, nothing else, no later overwrite
+    (the order of the assignments is immaterial) -/
+def storedExactly (cls method : String) (want : List (String × String)) : Bool :=
+  let have_ := storesOf cls method
+  have_.length == want.length && have_.all (want.contains ·) && want.all (have_.contains ·)
+
+/-- the names the results of the call are unpacked into -/
+def rets (cls method callee : String) (idx : Nat := 0) : Option (List String) :=
+  (site cls method callee idx).map (·.ret)
+
+def sameSet (a b : List String) : Bool := a.length == b.length && a.all (b.contains ·) && b.all (a.contains ·)
+
+/-- the library calls (and the `return ResultCls(...)`) of the method body, in source order, with the parameters
+    of the callee that are bound at the site (positional arguments already resolved to parameter names) -/
+def callsOf (cls method : String) : List (String × List String) :=
+  (sites.filter (fun s => s.cls == cls && s.method == method)).map (fun s => (s.callee, s.bind.map (·.1)))
+
+/-- the method makes exactly the listed calls in the listed order, and at each the SET of callee parameters that
+    receive an argument is exactly the listed one (spelling — positional or keyword, and the order of keywords — is
+    immaterial; every parameter not listed is left at the callee's default).  A new argument at a site, a dropped
+    one, a new or dropped call all make this false. -/
+def callsExactly (cls method : String) (want : List (String × List String)) : Bool :=
+  let have_ := callsOf cls method
+  have_.length == want.length && (have_.zip want).all (fun p => p.1.1 == p.2.1 && sameSet p.1.2 p.2.2)
 
 /-- the store happens before the call site (position inside the method) -/
 def storedBefore (cls method target callee : String) (idx : Nat := 0) : Bool :=
@@ -36,5 +68,79 @@ def storedAfter (cls method target callee : String) (idx : Nat := 0) : Bool :=
   match store cls method target, site cls method callee idx with
   | some st, some s => s.pos < st.pos
   | _, _ => false
+
+/-! ## Classes: who defines what (method resolution over the generated class table) -/
+
+def classInfo (c : String) : Option ClassInfo := classes.find? (fun k => k.name == c)
+
+def methodInfo (c m : String) : Option MethodInfo := methods.find? (fun k => k.cls == c && k.method == m)
+
+/-- the class whose body binds the name `m` when it is looked up on an instance of `c`: `c` itself if its body
+    binds `m` (method, attribute, or a module-level patch `c.m = …`), otherwise the lookup continues in the base
+    class.  Only single inheritance is resolved (a class with several bases that does not bind `m` itself gives
+    `none`, as does a decorated class or one with class keywords such as `metaclass=`); a base class outside the
+    table is returned as the definer without looking further. -/
+def resolveAux : Nat → String → String → Option String
+  | 0, _, _ => none
+  | fuel + 1, c, m =>
+    match classInfo c with
+    | none => some c
+    | some k =>
+      if !k.extras.isEmpty then none
+      else if k.own.contains m then some c
+      else match k.bases with
+        | [b] => resolveAux fuel b m
+        | _ => none
+
+def resolve (c m : String) : Option String := resolveAux (classes.length + 1) c m
+
+/-- the value of the class attribute `a` an instance of `c` sees -/
+def attrOf (c a : String) : Option String :=
+  (resolve c a).bind (fun d => (classInfo d).bind (fun k => k.attrs.lookup a))
+
+/-- every listed class resolves `m` to the class `d` -/
+def allResolve (cs : List String) (m d : String) : Bool := cs.all (fun c => resolve c m == some d)
+
+/-! ## Guards: `mpe` / `mpe_from_plot` raise before anything is read or stored -/
+
+/-- all recorded stores and call sites of the method body come after position `p` -/
+def allAfter (c m : String) (p : Nat) : Bool :=
+  (stores.filter (fun s => s.cls == c && s.method == m)).all (fun s => p < s.pos)
+  && (sites.filter (fun s => s.cls == c && s.method == m)).all (fun s => p < s.pos)
+
+def isResultGuard (g : String) : Bool :=
+  g == "if not self.result: raise ValueError" || g == "if self.result is None: raise ValueError"
+
+/-- the body of `m` as defined in class `d` starts with the guard: nothing but a docstring / aliases of arguments in
+    front of it (`pre = []`), every store and every library call after it, the method undecorated; the guard is
+    either the test itself or `super().m(...)` reaching a guarded body in the (single) base class. -/
+def guardedBodyAux : Nat → String → String → Bool
+  | 0, _, _ => false
+  | fuel + 1, d, m =>
+    match methodInfo d m with
+    | none => false
+    | some mi =>
+      mi.pre.isEmpty && allAfter d m mi.guardPos && (mi.decorators.isEmpty || d == "BaseAlgorithm")
+      && ((mi.guardKind == "raise" && isResultGuard mi.guardArg)
+          || (mi.guardKind == "super" && mi.guardArg == m
+              && match classInfo d with
+                 | some k => (match k.bases with
+                              | [b] => (match resolve b m with
+                                        | some d' => guardedBodyAux fuel d' m
+                                        | none => false)
+                              | _ => false)
+                 | none => false))
+
+/-- calling `m` on an instance of `c` without a result raises `ValueError` before anything is stored -/
+def guarded (c m : String) : Bool :=
+  match resolve c m with
+  | some d => guardedBodyAux (classes.length + 1) d m
+  | none => false
+
+/-- the algorithm classes of the table (everything but the abstract base) -/
+def algClasses : List String := (classes.filter (fun k => k.module != "base")).map (·.name)
+
+/-- the classes whose `m` is NOT guarded (what the C15 model takes as its `unguarded` list) -/
+def unguarded (m : String) : List String := algClasses.filter (fun c => !guarded c m)
 
 end PV.Wiring
